@@ -85,7 +85,7 @@ class LeastSquares(Contract):
             nd, npar = rng.randint(4, 12), rng.randint(1, 4)
             J = nrng.uniform(-3, 3, (nd, npar)) * nrng.uniform(0.1, 100, npar)
             d = nrng.uniform(-5, 5, nd)
-            w = rng.choice([None, nrng.uniform(0.1, 3, nd)])
+            w = rng.choice([None, nrng.uniform(0.1, 3, nd), np.full(nd, rng.choice([0.01, 1.0, 250.0]))])
             yield (J.copy(), d, w), dict(damping=rng.choice([None, 1e-8, 1e-3, 1.0, 100.0]), copy_jacobian=rng.random() < 0.5)
 
     tol = (1e-6, 1e-8)
@@ -293,7 +293,7 @@ class SplineFit(Contract):
             n = rng.randint(5, 12)
             arrs = tuple(nrng.uniform(-3, 3, n) for _ in range(4))
             est = verde.Spline(damping=rng.choice([None, 1e-3, 1.0]), force_coords=rng.choice([None, (nrng.uniform(-3, 3, 4), nrng.uniform(-3, 3, 4))]))
-            yield (est, arrs[:2], arrs[2]), dict(weights=rng.choice([None, np.abs(arrs[3]) + 0.1]))
+            yield (est, arrs[:2], arrs[2]), dict(weights=rng.choice([None, np.abs(arrs[3]) + 0.1, np.full(n, rng.choice([0.01, 250.0]))]))
 
     tol = (1e-5, 1e-7)
 
